@@ -356,10 +356,14 @@ def _campaign(rng, tier, nspecs, nvals, opts, tag, with_clone, with_catalog=True
     oout = run_driver(spec_lines + oreqs)[len(spec_lines):]
     reqs, meta = [], []
 
-    def add(k, ty, lead, b, kind, base=None, expect=None, what=None):
+    def add(k, ty, lead, b, kind, base=None, expect=None, what=None, rl=None):
+        # rl = (count, byte): the input is `b` followed by `count` copies of `byte` (written `<hex>~<count>:<bb>` on the wire of the
+        # line protocol, expanded by the harness and by the model driver) — buffers far larger than the value
+        tok = (b.hex() if b else "-") + ("~%d:%02x" % rl if rl else "")
         for fam in ("val", "ref"):
-            reqs.append("dec %d %s %s %d %s" % (k, fam, ty, lead, b.hex() if b else "-"))
-            meta.append({"k": k, "fam": fam, "ty": ty, "lead": lead, "hex": b.hex(), "kind": kind, "base": base, "expect": expect, "what": what})
+            reqs.append("dec %d %s %s %d %s" % (k, fam, ty, lead, tok))
+            meta.append({"k": k, "fam": fam, "ty": ty, "lead": lead, "hex": tok if rl else b.hex(), "n": len(b) + (rl[0] if rl else 0),
+                         "kind": kind, "base": base, "expect": expect, "what": what})
 
     nbase = 0
     for (k, ty, lead, j), line in zip(gmeta, gout):
@@ -374,6 +378,10 @@ def _campaign(rng, tier, nspecs, nvals, opts, tag, with_clone, with_catalog=True
         add(k, ty, lead, b, "valid", nbase, expect)
         suffix = bytes(rng.below(256) for _ in range(1 + rng.below(9)))
         add(k, ty, lead, b + suffix, "valid+suffix", nbase, expect)
+        if j == 0 and len(b) <= 4096:
+            # the same value at the head of a buffer far larger than itself (thresholds a programmer would pick: 4 KiB, 64 KiB, 1 MiB)
+            big = rng.choice([4096 + 13, 65536 + 464, 65536 + 464, 65536 + 464, (1 << 20) + 5])
+            add(k, ty, lead, b, "valid+suffix", nbase, expect, "big-suffix-%d" % big, rl=(big, rng.choice([0, 0x5a, 0xff])))
         if j == -1:
             continue        # the lead variant of the previous value: valid runs only
         if len(b) > 1200:
@@ -441,7 +449,7 @@ def _campaign(rng, tier, nspecs, nvals, opts, tag, with_clone, with_catalog=True
 def expected_valid(c):
     """value part the reference demands for a `valid` / `valid+suffix` case"""
     d, ws = c["expect"].rsplit(" ws=", 1)
-    n = len(c["hex"]) // 2
+    n = c.get("n", len(c["hex"]) // 2)
     if c["fam"] == "ref":
         rem = n - int(ws)
         return "ok %s rem=%d at=%s ws=%s" % (d, rem, "-" if rem == 0 else str(c["lead"] + int(ws)), ws)
